@@ -48,6 +48,9 @@ type Scenario struct {
 	Blocks  []Block `json:"blocks"`
 	// Every k-th stored timestamp is used as a seek target (1 = all).
 	TargetStep int `json:"target_step"`
+	// Seq is a sequence of operations applied to ONE reader (seq.go): to the
+	// multi-file reader over all files and to the single-file reader of each.
+	Seq []SeqOp `json:"seq,omitempty"`
 }
 
 const (
@@ -122,6 +125,7 @@ func Gen(t *rapid.T, tier string) any {
 	for i := 0; i < n; i++ {
 		sc.Blocks = append(sc.Blocks, genBlock(t, large, &left))
 	}
+	sc.Seq = genSeq(t)
 	return sc
 }
 
@@ -560,6 +564,25 @@ func Run(t *testing.T, scAny any, c *kernel.Ctx) error {
 				return err
 			}
 			c.Step()
+			var paths []string
+			for _, f := range files {
+				paths = append(paths, f.path)
+			}
+			err := r.checkSeq(fmt.Sprintf("reader over %d file(s)", len(files)), false, files, sc.Seq, func() (seqReader, error) {
+				return querylog.VerifNewReader(context.Background(), r.log, paths)
+			})
+			if err != nil {
+				return err
+			}
+			for _, f := range files {
+				err = r.checkSeq(f.name, true, []*file{f}, sc.Seq, func() (seqReader, error) {
+					q, oerr := querylog.VerifNewFile(f.path)
+					return fileAdapter{q: q, run: r}, oerr
+				})
+				if err != nil {
+					return err
+				}
+			}
 		}
 		return nil
 	})
@@ -569,7 +592,7 @@ func Run(t *testing.T, scAny any, c *kernel.Ctx) error {
 var Prop = &kernel.Property{
 	ID:    "C20",
 	Level: "exploration",
-	Rule: "seeded file shapes (rapid): 1-5 blocks of entries with target stored-line lengths between 150 bytes and 16 KiB - 1 (tiny, exactly one length, just under the limit, whole range with several strides) and timestamp gaps from 1 ns to seconds, written by the real Add / flush (MemSize 1..1000) / rotation code into one or two files (small profile: 1-60 lines; large profile: 0.3-5.2 MB per block, files of several reader windows); every stored timestamp (every k-th in the quick large profile) and absent timestamps are sought through the private single-file and multi-file readers; " +
+	Rule: "seeded file shapes (rapid): 1-5 blocks of entries with target stored-line lengths between 150 bytes and 16 KiB - 1 (tiny, exactly one length, just under the limit, whole range with several strides) and timestamp gaps from 1 ns to seconds, written by the real Add / flush (MemSize 1..1000) / rotation code into one or two files (small profile: 1-60 lines; large profile: 0.3-5.2 MB per block, files of several reader windows); every stored timestamp (every k-th in the quick large profile) and absent timestamps are sought through the private single-file and multi-file readers; then a sequence of 0-120 operations (timestamp seeks anchored at the oldest / newest line, at both sides of the file boundary or anywhere, on the stored timestamp, 1 ns beside it, half-way to the neighbour or 1000 h away; reads of 1-40 lines or to the end; SeekStart; re-open) is applied to ONE multi-file reader and to one single-file reader per file, against a cursor model; " +
 		"a case is non-trivial when >=1 file was read back completely and >=1 present and >=1 absent seek ran; distinct = distinct scenario digests. No fault kind applies to this property (a static file and a target decide it); the clock only spaces the timestamps and forces the rotation",
 	Gen: Gen,
 	New: func() any { return &Scenario{} },
@@ -584,10 +607,14 @@ var Prop = &kernel.Property{
 		"a line is 'shorter than the 16 KiB entry limit' when it has at most 16383 bytes without its newline",
 		"timestamps in a file are strictly increasing (entries recorded at least 1 ns apart)",
 		"files with zero lines are not produced by the real writer and are not examined",
-		"after a failed seek the reader is re-positioned with SeekStart before the next read (as the search path does)",
+		"after a failed seek the reader is re-positioned with SeekStart before the next read (as the search path does); in operation sequences a read directly after a failed seek may return any stored line or the end, and the reads after it must continue from there",
+		"a seek that reports success for a timestamp T no line has (listed finding) claims a position at T in a log read backwards in time: the reads that follow must be the lines older than T, newest first",
 	},
 	FaultKinds: []string{},
 	ProbeNames: []string{"rotated", "two_files", "one_line_file", "file_larger_than_window", "file_larger_than_3_windows", "line_len_limit_minus_1", "line_len_tiny",
 		"full_read_file", "full_read_reader", "seek_present", "seek_present_reader", "seek_then_read_across_files",
-		"seek_absent_not-found", "seek_absent_too-early", "seek_absent_too-late", "seek_absent_reader_not-found"},
+		"seek_absent_not-found", "seek_absent_too-early", "seek_absent_too-late", "seek_absent_reader_not-found",
+		"seq_seek_present", "seq_seek_after_all", "seq_seek_before_all", "seq_seek_between_files", "seq_seek_between_neighbours",
+		"seq_seek_after_all_from_older_file", "seq_seek_absent_refused", "seq_seek_present_landed", "seq_seek_absent_found_landed_on_next_older",
+		"seq_read_across_files", "seq_read_end", "seq_read_at_unspecified_position", "seq_start", "seq_reopen"},
 }
